@@ -22,7 +22,7 @@ var propDescs = map[string]propDesc{
 		NotDecided: "return values, read-your-writes, map equivalence - value semantics without a static handle.",
 	},
 	"C04": {
-		Decides:    "every successful write path updates every index family; the two reindex implementations agree and remove exactly keys not in the new set with the same key transform; key presence is never encoded as nil-ness; KeySet methods agree on emptiness; the non-unique key encoding is injective and order preserving (INDEX-FAMILIES, REINDEX-SIBLINGS, NIL-SENTINEL, KEYSET-GUARD, ENC-*).",
+		Decides:    "every successful write path updates every index family; the two reindex implementations agree, remove exactly keys not in the new set with the same key transform and have no shortcut around insertion/removal; key presence is never encoded as nil-ness; KeySet methods agree on emptiness; the non-unique key encoding is injective and order preserving (INDEX-FAMILIES, REINDEX-SIBLINGS, NIL-SENTINEL, KEYSET-GUARD, ENC-*).",
 		NotDecided: "exactness/order of query results, de-duplication logic, LPM traversal.",
 	},
 	"C05": {
@@ -30,12 +30,12 @@ var propDescs = map[string]propDesc{
 		NotDecided: "fairness; the Go mutex itself.",
 	},
 	"C06": {
-		Decides:    "store precedes notify precedes unlock; every replaced radix node's channel is retained or queued; Notify closes everything queued and the root channel iff dirty; the LPM index channel is replaced per commit; ...Watch APIs hand out the index's own channel, never a closed/fresh one; abort/pre-commit code cannot close (COMMIT-ORDER, WATCH-PAIR, NOTIFY-ALL, WATCH-ORIGIN, NOTIFY-SITES, ABORT-PURE).",
+		Decides:    "store precedes notify precedes unlock; every replaced radix node's channel is retained or queued; Notify closes everything queued and the root channel iff dirty; the LPM index channel is replaced per commit (or under a flag that every trie mutation sets) and the notifier closing the old one is returned; ...Watch APIs hand out the index's own channel, never a closed/fresh one; abort/pre-commit code cannot close (COMMIT-ORDER, WATCH-PAIR, NOTIFY-ALL, WATCH-ORIGIN, NOTIFY-SITES, ABORT-PURE).",
 		NotDecided: "that the right node's channel is chosen for a query (tree-shape dependent); dropped-node registration beyond the frozen count.",
 	},
 	"C07": {
-		Decides:    "both sources and the watch of a change iterator come from the committed root of the transaction passed in, from one table entry; Next has exactly its two return shapes; the delivering closure advances the revisions before yielding and clears the iterator only when exhausted (COMMITTED-ONLY, SAME-SNAPSHOT, NEXT-SHAPE).",
-		NotDecided: "revision-order merge, convergence, partial consumption accounting.",
+		Decides:    "both sources and the watch of a change iterator come from the committed root of the transaction passed in, from one table entry; Next has exactly its two return shapes; the delivering closure advances the revisions before yielding and clears the iterator only when exhausted; the two-way merge of updates and deletions (dualIterator.next) is decided completely over its finite abstract state: sources advanced exactly when needed, smaller revision first, correct side flag, only the returned slot consumed (COMMITTED-ONLY, SAME-SNAPSHOT, NEXT-SHAPE, DUAL-MERGE).",
+		NotDecided: "that each source is itself in revision order (index semantics), convergence, partial consumption accounting.",
 	},
 	"C08": {
 		Decides:    "deletes go to both graveyard indexes only under trackers, re-insert cleans both, the collector re-checks by deletion-revision key and scans only up to the minimum over all trackers, triggers are non-blocking, graveyard indexes are unreachable from query/count paths (INDEX-FAMILIES/GRAVEYARD-PAIR, GC-SCAN, GRAVEYARD-REFS, TRIGGER-NONBLOCK).",
@@ -62,15 +62,15 @@ var propDescs = map[string]propDesc{
 		NotDecided: "longest-match / ordering exactness otherwise.",
 	},
 	"C14": {
-		Decides:    "no operation error is dropped; every failure is queued; queue head changes re-arm the timer; popped items are processed; change/success clears; each retry heap is addressed with its own item index (ERR-FLOW, TIMER-REARM, QUEUE-INDEX-PAIR).",
+		Decides:    "no operation error is dropped; every failure is queued; queue head changes re-arm the timer; popped items are processed; change/success clears; each retry heap is addressed with its own item index and built with its own ordering key and position field, heap Swap/Push/Pop keep positions in step; the retry carries the revision read after the last write and the object version that was written (ERR-FLOW, TIMER-REARM, QUEUE-INDEX-PAIR, QUEUE-CTOR).",
 		NotDecided: "convergence, bounds in retry periods, round-size interplay.",
 	},
 	"C15": {
-		Decides:    "the reconciler's table writes are CAS-on-reconciled-revision or guarded inserts, never on un-cloned objects, never deletes; prune is gated on initialization and given the full table; StatusSet is copy-on-write and Pending() gives every status the fresh id unconditionally (RECONCILER-WRITES, PRUNE-GATE, IMMUT).",
+		Decides:    "the reconciler's table writes are CAS-on-reconciled-revision or guarded inserts, never on un-cloned objects, never deletes; prune is gated on initialization and given the full table; StatusSet is copy-on-write and Pending() gives every status the fresh id unconditionally; a retry is queued with the version of the object the status was written to, at the revision read after that write (RECONCILER-WRITES, PRUNE-GATE, IMMUT, ERR-FLOW, RETRY-BOOK).",
 		NotDecided: "that the guards compare the right values for every interleaving.",
 	},
 	"C16": {
-		Decides:    "the bookkeeping the pacing contract rests on: the backoff duration is capped by the maximum; an object's retry state (attempt counter) is forgotten when a new version arrives or an operation succeeds, so the backoff starts over; every failure refreshes the queued item and re-positions it in both heaps; the retry low watermark is the oldest failed item's revision and 0 only when none remains; WaitUntilReconciled's progress is published from the revisions incremental.run actually processed (RETRY-BOOK).",
+		Decides:    "the bookkeeping the pacing contract rests on: the backoff duration is capped by the maximum; an object's retry state (attempt counter) is forgotten when a new version arrives or an operation succeeds, so the backoff starts over; every failure refreshes the queued item and re-positions it in both heaps; the retry low watermark is the oldest failed item's revision and 0 only when none remains; WaitUntilReconciled's progress is published from the revisions incremental.run actually processed, and the low watermark is published on every update whatever the round's revision; the revision heap is ordered by origRev (RETRY-BOOK, TIMER-REARM, QUEUE-CTOR, QUEUE-INDEX-PAIR).",
 		NotDecided: "every clause about durations: never sooner than the minimum backoff, waits that do not shrink, retry within maximum plus one round - run-time quantities with no static handle.",
 	},
 	"C17": {
@@ -78,15 +78,15 @@ var propDescs = map[string]propDesc{
 		NotDecided: "model exactness, representation switches, JSON/YAML round trip beyond the decode-target clause.",
 	},
 	"C18": {
-		Decides:    "the escape table extracted from appendEncode is prefix-free, order-preserving and avoids the minimal separator (exhaustive over all 256 bytes); encodedLength agrees with it; key layout/offset agreement; integer encoders and the LPM key codec are big-endian through encoding/binary and do not narrow or shift a byte out (ENC-TABLE, ENC-AGREE, ENC-LAYOUT, ENC-ENDIAN, ENC-NARROW).",
+		Decides:    "the escape table extracted from appendEncode is prefix-free, order-preserving and avoids the minimal separator (exhaustive over all 256 bytes); encodedLength agrees with it; key layout/offset agreement; integer encoders and the LPM key codec are big-endian through encoding/binary and do not narrow or shift a byte out; no encoder writes through the slice it was given (ENC-FRESH) (ENC-TABLE, ENC-AGREE, ENC-LAYOUT, ENC-ENDIAN, ENC-NARROW).",
 		NotDecided: "LPM key masking arithmetic; keys of 64 KiB and more.",
 	},
 	"C19": {
-		Decides:    "copy-on-write of the pending list and initialization record; the init channel is closed only by Commit, after the root Store; `init` is cleared only when pending is empty; abort cannot affect it (IMMUT, COMMIT-ORDER, NOTIFY-SITES, ABORT-PURE, INIT-SHAPE).",
+		Decides:    "copy-on-write of the pending list and initialization record; the init channel is closed only by Commit, after the root Store; `init` is cleared only when pending is empty; abort cannot affect it, and the mark-done closure keeps no state outside the transaction (IMMUT, COMMIT-ORDER, NOTIFY-SITES, ABORT-PURE, INIT-SHAPE).",
 		NotDecided: "'exactly when every initializer is done' as a history property.",
 	},
 	"C20": {
-		Decides:    "removed = returned, returned is a subset of (added and selected); a nil result is always paired with the context's error (WAIT-REMOVE-RETURN).",
+		Decides:    "removed = returned, returned is a subset of (added and selected); a nil result is always paired with the context's error; every member gets a select case; the set's fields are touched only under its mutex (WAIT-REMOVE-RETURN, GUARDED-BY).",
 		NotDecided: "settle-time behaviour, timing.",
 	},
 }
